@@ -188,6 +188,12 @@ proof fn lemma_mask_wf(x: u64, n: usize)
     let m = nmask(n);
     assert(((m & x) & !m) == 0 && (m & !m) == 0) by (bit_vector);
 }
+proof fn lemma_zero_wf(n: usize)
+    ensures (0u64 & !nmask(n)) == 0
+{
+    let m = nmask(n);
+    assert((0u64 & !m) == 0) by (bit_vector);
+}
 proof fn lemma_tsize_pos(n: usize)
     requires n < 64
     ensures tsize(n) >= 1
@@ -211,7 +217,7 @@ pub fn fill_one(num_vars: usize, table: &mut [u64])
     {
         *t = mask;
     }
-    proof { lemma_tsize_pos(num_vars); lemma_mask_wf(0, num_vars); lemma_mask_wf(!g0[0], num_vars); }
+    proof { lemma_tsize_pos(num_vars); lemma_mask_wf(0, num_vars); lemma_mask_wf(!g0[0], num_vars); lemma_zero_wf(num_vars); }
 }
 pub fn fill_zero(num_vars: usize, table: &mut [u64])
     requires num_vars < 64, old(table)@.len() == tsize(num_vars),
@@ -228,7 +234,7 @@ pub fn fill_zero(num_vars: usize, table: &mut [u64])
     {
         *t = 0u64;
     }
-    proof { lemma_tsize_pos(num_vars); lemma_mask_wf(0, num_vars); lemma_mask_wf(!g0[0], num_vars); }
+    proof { lemma_tsize_pos(num_vars); lemma_mask_wf(0, num_vars); lemma_mask_wf(!g0[0], num_vars); lemma_zero_wf(num_vars); }
 }
 pub fn not_inplace(num_vars: usize, table: &mut [u64])
     requires num_vars < 64, old(table)@.len() == tsize(num_vars),
@@ -246,14 +252,92 @@ pub fn not_inplace(num_vars: usize, table: &mut [u64])
     {
         *t = mask & !*t;
     }
-    proof { lemma_tsize_pos(num_vars); lemma_mask_wf(0, num_vars); lemma_mask_wf(!g0[0], num_vars); }
+    proof { lemma_tsize_pos(num_vars); lemma_mask_wf(0, num_vars); lemma_mask_wf(!g0[0], num_vars); lemma_zero_wf(num_vars); }
 }
+
+proof fn lemma_bit_index(n: usize, ind: usize)
+    requires n < 64, ind < (1usize << n)
+    ensures (ind >> 6) < tsize(n), (ind & 0x3f) < 64,
+        n < 6 ==> (ind >> 6) == 0 && ((1u64 << ((ind & 0x3f) as u64)) & !nmask(n)) == 0,
+{
+    let e = if n > 6 { (n - 6) as usize } else { 0usize };
+    assert(n < 64 && ind < (1usize << n) && e == (if n > 6 { (n - 6) as usize } else { 0usize }) ==>
+        (ind >> 6) < (if n <= 6 { 1usize } else { 1usize << e }) && (ind & 0x3f) < 64 && (n < 6 ==> (ind >> 6) == 0)) by (bit_vector);
+    if n < 6 {
+        let m = nmask(n); let k = (ind & 0x3f) as u64;
+        assert(n < 6 && ind < (1usize << n) ==> (ind & 0x3f) == ind && ind < 32) by (bit_vector);
+        assert(((n == 0 && m == 0x1u64 && k < 1) || (n == 1 && m == 0x3u64 && k < 2) || (n == 2 && m == 0xfu64 && k < 4)
+             || (n == 3 && m == 0xffu64 && k < 8) || (n == 4 && m == 0xffffu64 && k < 16) || (n == 5 && m == 0xffff_ffffu64 && k < 32))
+            ==> ((1u64 << k) & !m) == 0) by (bit_vector);
+        assert(n == 0 ==> ind < 1) by { assert((1usize << 0usize) == 1) by (bit_vector); }
+        assert(n == 1 ==> ind < 2) by { assert((1usize << 1usize) == 2) by (bit_vector); }
+        assert(n == 2 ==> ind < 4) by { assert((1usize << 2usize) == 4) by (bit_vector); }
+        assert(n == 3 ==> ind < 8) by { assert((1usize << 3usize) == 8) by (bit_vector); }
+        assert(n == 4 ==> ind < 16) by { assert((1usize << 4usize) == 16) by (bit_vector); }
+        assert(n == 5 ==> ind < 32) by { assert((1usize << 5usize) == 32) by (bit_vector); }
+    }
+}
+
+/// Get a single bit in a LUT from a mask
 pub fn get_bit(num_vars: usize, table: &[u64], ind: usize) -> (r: bool)
     requires num_vars < 64, table@.len() == tsize(num_vars), ind < (1usize << num_vars),
-    ensures r == (((table@[(ind >> 6) as int] >> ((ind & 0x3f) as u64)) & 1) == 1),
+    ensures r == ((table@[(ind >> 6) as int] & (1u64 << ((ind & 0x3f) as u64))) != 0),
 {
+    proof { lemma_bit_index(num_vars, ind); }
     debug_assert!(ind < 1 << num_vars);
     (table[ind >> 6] & (1 << (ind & 0x3f))) != 0
+}
+
+/// Set a single bit in a LUT from a mask
+pub fn set_bit(num_vars: usize, table: &mut [u64], ind: usize)
+    requires num_vars < 64, wf(num_vars, old(table)@), ind < (1usize << num_vars),
+    ensures final(table)@ =~= old(table)@.update((ind >> 6) as int, old(table)@[(ind >> 6) as int] | (1u64 << ((ind & 0x3f) as u64))),
+        wf(num_vars, final(table)@),
+{
+    proof {
+        lemma_bit_index(num_vars, ind);
+        let x = table@[(ind >> 6) as int]; let b = 1u64 << ((ind & 0x3f) as u64); let m = nmask(num_vars);
+        assert((x & !m) == 0 && (b & !m) == 0 ==> ((x | b) & !m) == 0) by (bit_vector);
+    }
+    debug_assert!(ind < 1 << num_vars);
+    table[ind >> 6] |= 1 << (ind & 0x3f);
+}
+
+/// Unset a single bit in a LUT from a mask
+pub fn unset_bit(num_vars: usize, table: &mut [u64], ind: usize)
+    requires num_vars < 64, wf(num_vars, old(table)@), ind < (1usize << num_vars),
+    ensures final(table)@ =~= old(table)@.update((ind >> 6) as int, old(table)@[(ind >> 6) as int] & !(1u64 << ((ind & 0x3f) as u64))),
+        wf(num_vars, final(table)@),
+{
+    proof {
+        lemma_bit_index(num_vars, ind);
+        let x = table@[(ind >> 6) as int]; let b = 1u64 << ((ind & 0x3f) as u64); let m = nmask(num_vars);
+        assert((x & !m) == 0 ==> ((x & !b) & !m) == 0) by (bit_vector);
+    }
+    debug_assert!(ind < 1 << num_vars);
+    table[ind >> 6] &= !(1 << (ind & 0x3f));
+}
+
+// C19: the generator call is replaced by its weakest contract (extraction rule 4)
+#[verifier::external_body]
+pub fn verif_rng_next_u64() -> u64 { unimplemented!() }
+
+pub fn fill_random(num_vars: usize, table: &mut [u64])
+    requires num_vars < 64, old(table)@.len() == tsize(num_vars),
+    ensures wf(num_vars, final(table)@),
+{
+    let ghost g0 = table@;
+    for t in it: table
+        invariant
+            it.seq().len() == g0.len(), num_vars < 64,
+            forall|q: int| #![trigger it.seq()[q]] #![trigger final(table)@[q]] 0 <= q < g0.len() ==> *final(it.seq()[q]) == final(table)@[q],
+            forall|q: int| 0 <= q < it.index@ ==> (*final(#[trigger] it.seq()[q]) & !nmask(num_vars)) == 0,
+    {
+        let ghost r0 = 0u64;
+        *t = verif_rng_next_u64() & num_vars_mask(num_vars);
+        proof { let x = *t; let m = nmask(num_vars); assert(forall|y: u64| #[trigger] ((y & m) & !m) == 0) by (bit_vector); }
+    }
+    proof { lemma_tsize_pos(num_vars); }
 }
 }
 fn main() {}
